@@ -50,6 +50,9 @@ def dense_records(ctx, d, rng, rid0, n_datasets):
                                     continue
                                 inp = dict(template=t, thr=thr, unw=unw, nclosest=ncl)
                                 with ctx.guard('dense', inp):
+                                    # the model is configured with ANOTHER threshold: the explicit argument
+                                    # (also an explicit 0) takes precedence
+                                    m.amplitude_threshold = 0.5 if thr != [1, 2] else 1.0
                                     b = m.get_template(t, channel_ids=explicit,
                                                        amplitude_threshold=thr[0] / thr[1], unwhiten=unw)
                                     if explicit is None:
@@ -137,9 +140,9 @@ def run(ctx):
                     timeout=3000, note='I-layer (nondeterministic ties) |= ValidDense')
     rng = np.random.RandomState(ctx.seed + 5)
     with tmp_dir(ctx) as d:
-        recs = dense_records(ctx, d, rng, 1, 40 if ctx.quick else 250)
+        recs = dense_records(ctx, d, rng, 1, 40 if ctx.quick else 2000)
         if not ctx.abort:
-            recs += sparse_records(ctx, d, rng, len(recs) + 1, 120 if ctx.quick else 800)
+            recs += sparse_records(ctx, d, rng, len(recs) + 1, 120 if ctx.quick else 6000)
     if ctx.abort:
         return
     ctx.evaluations = len(recs)
